@@ -33,10 +33,15 @@ package rewrite
 //@   induct splitOrder(rs, a, b - 1)
 //@   auto
 
+// The columns of the internal relation: every variable of a positive atom and of BOTH sides of an equality (a
+// variable that only the right side of an equality binds must be a column too, or the aggregation never sees it).
 //@ func getVars(term, vars)
 //@   requires vars != nil
 //@   modifies vars
 //@   opt nosafety
+//@   ensures forall v ast.Variable :: old(vars[v]) ==> vars[v]
+//@   ensures term is ast.Atom ==> (forall v ast.Variable :: ast.occurs(term, v) ==> vars[v])
+//@   ensures term is ast.Eq ==> (forall v ast.Variable :: ast.occurs((term as ast.Eq).Left, v) || ast.occurs((term as ast.Eq).Right, v) ==> vars[v])
 
 //@ func makeHead(sym, vars)
 //@   trusted
